@@ -131,14 +131,14 @@ func (vc *VC) instrWrites(in ssa.Instruction) []writeSite {
 	switch x := in.(type) {
 	case *ssa.Store:
 		vc.addrHeap(x.Addr, mod)
-		for h := range mod {
+		for _, h := range sortedKeys(mod) {
 			out = append(out, writeSite{h, vc.addrBase(x.Addr)})
 		}
 	case *ssa.Alloc, *ssa.MakeSlice, *ssa.MakeMap, *ssa.Convert, *ssa.MakeClosure, *ssa.MakeChan, *ssa.Range, *ssa.Next:
 		// allocations initialise fresh references only
 	case *ssa.MapUpdate:
 		vc.instrModifies(in, mod)
-		for h := range mod {
+		for _, h := range sortedKeys(mod) {
 			out = append(out, writeSite{h, x.Map})
 		}
 	case ssa.CallInstruction:
@@ -150,7 +150,7 @@ func (vc *VC) instrWrites(in ssa.Instruction) []writeSite {
 				out = append(out, writeSite{n, c.Args[0]})
 			case "delete", "clear":
 				vc.callModifies(c, mod)
-				for h := range mod {
+				for _, h := range sortedKeys(mod) {
 					out = append(out, writeSite{h, c.Args[0]})
 				}
 			}
@@ -164,7 +164,7 @@ func (vc *VC) instrWrites(in ssa.Instruction) []writeSite {
 			}
 		}
 		vc.callModifies(c, mod)
-		for h := range mod {
+		for _, h := range sortedKeys(mod) {
 			if h != "alloc" {
 				out = append(out, writeSite{h, nil})
 			}
